@@ -136,7 +136,9 @@ def bundle_decisions_by_index(base_path, decisions):
         else:
             # Removerange or addrange will have common_path
             # on list and key only in the diff entries
-            keys = set(e.key for e in chain(d.local_diff, d.remote_diff, d.get("custom_diff", ())))
+            # One-sided decisions have no diff (None) for the other side
+            keys = set(e.key for e in chain(
+                d.local_diff or (), d.remote_diff or (), d.get("custom_diff") or ()))
             assert len(keys) == 1
             key, = keys
         decisions_by_index[key].append(d)
